@@ -95,7 +95,7 @@ def check_accessors(u):
 
 def case_accessors(acc, rname, w, encoded):
     from vlib import routes
-    tmpl = routes.CTOR_TEMPLATES[rname]
+    tmpl = routes.CTOR_TEMPLATES.get(rname) or routes.CTX_TEMPLATES[rname]
     s = tmpl.replace("{}", w)
     acc.evals += 1
     try:
@@ -253,6 +253,27 @@ def task_accessors(rname, spname, encoded, part, nparts):
     return acc.result()
 
 
+def task_accessors_ctx(listname, gi, ngroups, spnames):
+    """Decoded views of the constructor under the context matrix (vlib.routes.NAMES_CTX1/2), auto-encoding and pre-encoded."""
+    from vlib import routes
+    acc = Acc(ID, impl.backend)
+    states = set()
+    last = None
+    for spname in spnames:
+        ws = sweep.space(spname)
+        for rname in getattr(routes, listname)[gi::ngroups]:
+            for enc in (False, True):
+                for w in ws:
+                    st = case_accessors(acc, rname, w, enc)
+                    if st is not None:
+                        states.add(st)
+                        last = (rname, w, st)
+    acc.state_count = len(states)
+    if last:
+        acc.sample({"ctor_route": last[0], "word": last[1], "decoded(path,query_string,fragment)": last[2]}, 1)
+    return acc.result()
+
+
 READBACK_KINDS = ("build", "mod", "query")
 
 
@@ -275,6 +296,12 @@ def plan(ctx):
                 for enc in (True, False):
                     for part in range(n):
                         tasks.append(("checks.C06", "task_accessors", (rname, sp, enc, part, n), b, "a"))
+    for b in BACKENDS:
+        for gi in range(12):
+            tasks.append(("checks.C06", "task_accessors_ctx", ("NAMES_CTX1", gi, 12, ("nF1", "nK2") + (() if quick else ("nX2",))), b, "x1"))
+        for gi in range(24):
+            tasks.append(("checks.C06", "task_accessors_ctx", ("NAMES_CTX2", gi, 24, ("nF1",)), b, "x2"))
+    ctx.notes["context_routes"] = sweep.ctx_note()
     rb = [n for n in routes.NAMES if routes.ROUTES[n].kind in READBACK_KINDS]
     tasks += sweep.plan_routes("checks.C06", rb, aspaces)
     tasks += sweep.plan_routes("checks.C06", [n + "~sub" for n in rb if n + "~sub" in routes.ROUTES], [("nF1", 1), ("nX2", 2)])
